@@ -214,7 +214,14 @@ func (env *SpecEnv) eval(x ast.Expr) sv {
 		v := env.eval(n.X)
 		return env.field(v, n.Sel.Name)
 	case *ast.IndexExpr:
-		s := env.seq(env.eval(n.X))
+		xv := env.eval(n.X)
+		if sl, ok := xv.V.(*SliceVal); ok && sl.Obj != 0 && !isScalarType(sl.ElemT) {
+			// element of a slice of non-scalars (strings, structs): load through the heap path
+			i, _ := env.term(env.eval(n.Index), sv{V: sl.Len, T: types.Typ[types.Int]})
+			p := &PtrVal{Obj: sl.Obj, Path: appendPath(sl.Path, PathElem{Field: -1, Idx: e.C.Add(sl.Off, i)}), T: sl.ElemT}
+			return sv{V: e.load(env.st, p), T: sl.ElemT}
+		}
+		s := env.seq(xv)
 		i, _ := env.term(env.eval(n.Index), sv{V: s.Len, T: types.Typ[types.Int]})
 		return sv{V: s.At(i), T: s.ET}
 	case *ast.SliceExpr:
@@ -671,6 +678,9 @@ func (env *SpecEnv) call(n *ast.CallExpr) sv {
 		v := arg(0)
 		if m, ok := v.V.(*MapVal); ok {
 			return sv{V: e.lenOf(env.st, m), T: types.Typ[types.Int]}
+		}
+		if s, ok := v.V.(*SliceVal); ok {
+			return sv{V: s.Len, T: types.Typ[types.Int]}
 		}
 		return sv{V: env.seq(v).Len, T: types.Typ[types.Int]}
 	case "cap":
